@@ -188,6 +188,10 @@ impl DapTransport for SimTransport {
         match g.client.next(&mut g.tape, &g.records) {
             Some(m) => {
                 g.records.push(Rec::Read(m.clone()));
+                if let Ok(mut p) = crate::PARTIAL.lock() {
+                    p.0.push(format!("<- {} {} {}", m["seq"], m["command"].as_str().unwrap_or("?"), m["arguments"]));
+                    p.1 = g.tape.rec.clone();
+                }
                 // pipes created from now on belong to the debugger this request may build
                 if m["command"] == "launch" || m["command"] == "attach" {
                     g.pipes_seen = seam::PIPES.lock().unwrap().len();
@@ -210,6 +214,10 @@ impl DapTransport for SimTransport {
             }
         }
         g.records.push(Rec::Write(message.clone()));
+        if let Ok(mut p) = crate::PARTIAL.lock() {
+            p.0.push(format!("-> {}", short(message)));
+            p.1 = g.tape.rec.clone();
+        }
         Ok(())
     }
 }
